@@ -5,7 +5,12 @@ use savefile_derive::savefile_abi_exportable;
 use serde_json::{json, Value};
 use std::cell::RefCell;
 use std::collections::{HashMap, VecDeque};
+use std::future::Future;
 use std::panic::{catch_unwind, AssertUnwindSafe};
+use std::pin::Pin;
+use std::sync::atomic::{AtomicBool, Ordering};
+use std::sync::Arc;
+use std::task::{Context, Poll, Wake, Waker};
 
 thread_local! {
     static LOG: RefCell<Vec<(String, i64)>> = RefCell::new(Vec::new());
@@ -48,6 +53,50 @@ pub trait CallIface {
     fn boxed_fn(&self, id: u32) -> Box<dyn Fn(u32) -> u32>;
     fn panic_lit(&self);
     fn panic_fmt(&self, x: u32);
+    fn fut(&self, id: u32, pending: u32) -> Pin<Box<dyn Future<Output = u32>>>;
+}
+/// a future that is Pending `left` times (waking its waker each time) and then yields 100 + the initial count
+struct TheFut {
+    token: DropToken,
+    left: u32,
+    total: u32,
+}
+impl Future for TheFut {
+    type Output = u32;
+    fn poll(mut self: Pin<&mut Self>, cx: &mut Context<'_>) -> Poll<u32> {
+        log("poll", self.left as i64);
+        let _ = &self.token;
+        if self.left > 0 {
+            self.left -= 1;
+            cx.waker().wake_by_ref();
+            Poll::Pending
+        } else {
+            Poll::Ready(100 + self.total)
+        }
+    }
+}
+struct Flag(AtomicBool);
+impl Wake for Flag {
+    fn wake(self: Arc<Self>) {
+        self.0.store(true, Ordering::SeqCst);
+    }
+}
+/// minimal executor: polls again only after the waker was used; Err if the future is Pending without having woken us
+fn drive(mut f: Pin<Box<dyn Future<Output = u32>>>) -> Result<u32, String> {
+    let flag = Arc::new(Flag(AtomicBool::new(false)));
+    let waker = Waker::from(flag.clone());
+    let mut cx = Context::from_waker(&waker);
+    for _ in 0..1000 {
+        match f.as_mut().poll(&mut cx) {
+            Poll::Ready(v) => return Ok(v),
+            Poll::Pending => {
+                if !flag.0.swap(false, Ordering::SeqCst) {
+                    return Err("pending-without-wake".to_string());
+                }
+            }
+        }
+    }
+    Err("never-ready".to_string())
 }
 struct Impl(DropToken);
 impl CallIface for Impl {
@@ -124,11 +173,17 @@ impl CallIface for Impl {
         log("panic_fmt", x as i64);
         panic!("formatted panic méssage {} — ünïcode", x);
     }
+    fn fut(&self, id: u32, pending: u32) -> Pin<Box<dyn Future<Output = u32>>> {
+        log("fut", id as i64);
+        Box::pin(TheFut { token: DropToken(id), left: pending, total: pending })
+    }
 }
 
 enum Held {
     O(Box<dyn Obj>, u32),
     F(Box<dyn Fn(u32) -> u32>, u32),
+    #[allow(dead_code)]
+    U(Pin<Box<dyn Future<Output = u32>>>, u32),
 }
 
 /// runs the call sequence on `iface`; returns (log, rets)
@@ -189,7 +244,7 @@ fn run(iface: &mut dyn CallIface, calls: &Value, next_id: &mut u32, held: &mut V
                 "drop_obj" => {
                     let h = held.pop_front().expect("model guard");
                     let id = match &h {
-                        Held::O(_, id) | Held::F(_, id) => *id,
+                        Held::O(_, id) | Held::F(_, id) | Held::U(_, id) => *id,
                     };
                     drop(h);
                     log("drop", id as i64);
@@ -224,6 +279,22 @@ fn run(iface: &mut dyn CallIface, calls: &Value, next_id: &mut u32, held: &mut V
                     let h = held.iter().find_map(|h| if let Held::F(f, id) = h { Some((f, *id)) } else { None }).expect("model guard");
                     let r = (h.0)(x as u32);
                     (if r == x as u32 + h.1 { "ok" } else { "wrong" }.to_string(), x + h.1 as i64)
+                }
+                "fut" => {
+                    *next_id += 1;
+                    let f = iface.fut(*next_id, x as u32);
+                    match drive(f) {
+                        Ok(v) if v == 100 + x as u32 => ("ok".to_string(), x),
+                        Ok(_) => ("wrong".to_string(), x),
+                        Err(e) => (e, x),
+                    }
+                }
+                "hold_fut" => {
+                    *next_id += 1;
+                    let id = *next_id;
+                    let f = iface.fut(id, x as u32);
+                    held.push_back(Held::U(f, id));
+                    ("fut".to_string(), id as i64)
                 }
                 "panic_lit" => {
                     iface.panic_lit();
